@@ -229,7 +229,7 @@ theorem step_refines (s : St) (f : Fifo) (h : Rel s f) (op : Librfn.Spec.Message
   | release => exact release_refines s f h hp
   | empty => exact empty_refines s f h
 
--- >>> spliced part
+
 
 /-! ### histories -/
 
